@@ -48,6 +48,7 @@ import (
 	"github.com/robertkrimen/otto"
 	"github.com/robertkrimen/otto/ast"
 	"github.com/robertkrimen/otto/parser"
+	"github.com/robertkrimen/otto/registry"
 	. "ottoh/lib"
 )
 
@@ -184,6 +185,11 @@ function wideProbe(loc, tag) {
   yield();
   var d = new Date(2000 + tag, tag % 12, 10, 11, 12, 13);
   out.push(d.toLocaleString(), d.getHours(), d.toString().length, d.getTimezoneOffset());
+  // every Date setter, local and UTC, with an argument whose conversion lets other runtimes run
+  var ds = new Date(2001, 1, 3, 4, 5, 6, 7), yv = {valueOf: function () { yield(); return tag % 50; }};
+  ds.setUTCHours(tag % 24, yv, 30, 400); ds.setHours(1, 2, yv); ds.setMinutes(yv, 3, 4); ds.setUTCMinutes(5, yv); ds.setSeconds(yv, 9); ds.setUTCSeconds(7, yv);
+  ds.setMilliseconds(yv); ds.setUTCMilliseconds(tag); ds.setMonth(tag % 12, yv); ds.setUTCMonth(yv, 2); ds.setFullYear(2000 + tag, yv, 5); ds.setUTCFullYear(1990 + tag, 1, yv);
+  ds.setDate(yv); ds.setUTCDate(tag % 28 + 1); out.push(ds.toISOString(), ds.setTime(tag * 1e9), new Date(tag * 1e9).setUTCHours(1, 2, 3, tag));
   var r = Math.random(); out.push(r >= 0 && r < 1);
   out.push(new RegExp('w' + tag + '+', 'g').test('xw' + tag + tag), parseFloat('1e' + (tag % 5)), (tag + 0.5).toFixed(1), encodeURIComponent('ü' + tag), 'I'.toLowerCase() + 'ß'.toUpperCase());
   return out.join(' ');
@@ -337,7 +343,9 @@ func jsq(s string) string { b, _ := json.Marshal(s); return string(b) }
 func (g *gen) generic(R int) string {
 	w, w2, n, n2 := jsq(g.word()), jsq(g.word()), g.num(), g.num()
 	k := g.r.Intn(7) + 2
-	switch g.r.Intn(50) {
+	switch g.r.Intn(54) {
+	case 50, 51, 52, 53:
+		return literalCalls(g.r, R)
 	case 44, 45, 46:
 		// process-wide locale machinery: every program picks its own locale
 		loc := Pick(g.r, []string{"'de'", "'fr'", "'en-IN'", "'nl-NL'", "'en-US'", "'ja'", "'es'", "'pt-BR'", "", "undefined"})
@@ -671,6 +679,41 @@ func (g *gen) shaped(R int) string {
 }
 
 
+
+// programs that call and construct things that are not functions - above all the literals true, false
+// and null, whose compiled node is one package-level singleton - at generated source positions, and
+// report name, message and position of each TypeError
+func literalCalls(r *rand.Rand, tag int) string {
+	callees := []string{"null", "true", "false", "null", "true", "false", "1", "'s'", "undefined", "({})", "[]", "/x/", "o.nope", "o.num", "Math.PI", "NaN", "this.zzz"}
+	var b strings.Builder
+	for i := r.Intn(4); i > 0; i-- {
+		b.WriteString("\n")
+	}
+	b.WriteString(strings.Repeat(" ", r.Intn(9)))
+	fmt.Fprintf(&b, "var o = {num: %d}, out = [];\n", tag)
+	b.WriteString("function pos(e) { var m = /:(\\d+):(\\d+)/.exec(String(e.stack)); return e.name + ':' + e.message + '@' + (m ? m[1] + ':' + m[2] : 'nowhere') + '/' + String(e.stack).split('\\n').length; }\n")
+	n := 4 + r.Intn(6)
+	for i := 0; i < n; i++ {
+		c := Pick(r, callees)
+		pad := strings.Repeat(" ", r.Intn(12))
+		if r.Intn(3) == 0 {
+			pad = "\n" + pad
+		}
+		switch r.Intn(4) {
+		case 0:
+			fmt.Fprintf(&b, "try {%s new %s(%d); } catch (e) { out.push(pos(e)); }\n", pad, c, i)
+		case 1:
+			fmt.Fprintf(&b, "(function f%d() { try {%s %s(%d, 'a'); } catch (e) { out.push(pos(e)); } })();\n", i, pad, c, i)
+		case 2:
+			fmt.Fprintf(&b, "try { eval(%s); } catch (e) { out.push(pos(e)); }\n", jsq(pad+c+"()"))
+		default:
+			fmt.Fprintf(&b, "try {%s %s(); } catch (e) { out.push(pos(e)); }\n", pad, c)
+		}
+	}
+	b.WriteString("out.join(' ')")
+	return b.String()
+}
+
 // programs that DEFINE new functions and objects (in a copy: after Copy()) and then use the services the
 // runtime provides through them: caller, arguments/callee, stack traces, eval, Function, bind, accessors
 func (g *gen) postcopy(R int) string {
@@ -852,7 +895,9 @@ func (g *gen) job(idx int) Job {
 		np := 3 + r.Intn(6)
 		for i := 0; i < np; i++ {
 			// a shared program cannot mention the runtime tag: it is the same text for all
-			switch r.Intn(7) {
+			switch r.Intn(9) {
+			case 7, 8:
+				pool = append(pool, literalCalls(r, 7))
 			case 6:
 				pool = append(pool, g.native(7))
 			case 0:
@@ -1005,6 +1050,15 @@ func resultText(o Outcome) string {
 func yieldFn() { goruntime.Gosched() }
 
 const defaultStackLimit = 400
+
+// registry entries of the harness (registered at import time, as add-on packages do):
+// regMark defines a global every runtime created while it is enabled must have; regQuiet has an empty
+// program, so whether it is enabled cannot be observed by scripts - it is disabled while the fresh
+// runtimes of a job are created concurrently and enabled again afterwards.
+var (
+	regMark  = registry.Register(func() string { return "var regMark = 42;" })
+	regQuiet = registry.Register(func() string { return "0;" })
+)
 
 // Go values bridged into every template BEFORE any Copy.  Each template gets its own instances;
 // programs only call the (pure) methods and read the containers, because the Go data behind a
@@ -1324,8 +1378,12 @@ func runJob(idx int, j Job) JobResult {
 			runList(template, sh, n, j.TProgs, 1, &tevs)
 		}()
 	}
+	if origin == 0 {
+		regQuiet.Disable() // otto.New() in the goroutines scans the registry with a disabled entry in it
+	}
 	close(start)
 	wg.Wait()
+	regQuiet.Enable()
 	for _, evs := range per {
 		res.Conc = append(res.Conc, evs...)
 	}
@@ -1480,6 +1538,125 @@ func pinnedFindings(env *Env) {
 		env.Add(fmt.Sprintf("CPin 30 %s %s %s", cResult(obs), cResult(required), cResult(required)), "pinned regression OBSERVED "+obs, "pinned regression", true)
 	}
 	pinnedEquivalence(env)
+	pinnedScriptReuse(env)
+	pinnedRegistry(env)
+	pinnedInterleave(env)
+}
+
+// programs that call other() at the moment a built-in is half-way through its work (an argument being
+// converted, a callback running); %[1]d is the tag of the runtime
+var interleaveProgs = []string{
+	`var ob = {toString: function () { other(); return 'o%[1]d'; }}; var out = []; for (var i = 0; i < T.bf.length; i++) out.push(String(T.bf[i](ob, 'x%[1]d')) + '/' + String(T.bf[i](ob, %[1]d, 'y%[1]d')) + '/' + String(T.bf[i]('z%[1]d', ob, 'w%[1]d', ob))); out.join('|')`,
+	`var d = new Date(2020, 0, 15), yv = {valueOf: function () { other(); return 20 + %[1]d; }}; d.setUTCHours(10 + %[1]d, yv, 30, 400 + %[1]d); var r = [d.toISOString()]; d.setHours(%[1]d, 2, yv); d.setMinutes(yv, 3, 4); d.setUTCSeconds(7, yv); d.setMonth(%[1]d, yv); d.setUTCFullYear(1990 + %[1]d, 1, yv); d.setFullYear(2000 + %[1]d, yv, 5); r.push(d.toISOString()); r.join()`,
+	`var a = (1234567.5 + %[1]d).toLocaleString(['de', 'fr', 'en-IN', 'nl-NL'][%[1]d %% 4]); other(); a + '|' + (7654321.25 + %[1]d).toLocaleString(['de', 'fr', 'en-IN', 'nl-NL'][%[1]d %% 4]) + '|' + [1234.5, %[1]d].toLocaleString()`,
+	`[3, 1, 2, %[1]d, 10, 7].sort(function (a, b) { other(); return a - b; }).join() + '|' + 'abc'.replace(/./g, function (m) { other(); return m + %[1]d; }) + '|' + JSON.stringify({a: {toJSON: function () { other(); return %[1]d; }}, b: [%[1]d]}) + '|' + [1, 2, 3].map(function (x) { other(); return x * %[1]d; }).join()`,
+	`var s1 = scopeProbe(); other(); s1 + '#' + scopeProbe() + '#' + scopePeek()`,
+	`var r = []; try { null(); } catch (e) { other(); r.push(e.name + String(e.stack).split('\n')[1]); } try { new true(%[1]d); } catch (e) { r.push(String(e.stack).split('\n')[1]); } function deep(n) { if (!n) { other(); throw new Error('d%[1]d'); } return deep(n - 1); } try { deep(%[1]d); } catch (e) { r.push(e.stack); } r.join()`,
+	`var re = /a(b+)?/g, str = 'xabbyab%[1]d'; var m1 = re.exec(str); other(); var m2 = re.exec(str); [m1 && m1.index, re.lastIndex, m2 && m2[0], RegExp.$1, 'A%[1]dB'.toLowerCase(), encodeURIComponent('ü%[1]d'), parseInt('%[1]d7', 8), (%[1]d.5).toFixed(2)].join()`,
+	`callBound('i%[1]d') + other() + nativeCensus() + accessorCensus('i%[1]d')`,
+}
+
+// pinnedInterleave (class 34), sequential and on every seed: runtime A is half-way through a built-in
+// when ANOTHER runtime B (a sibling copy of the same template, or an unrelated fresh runtime) runs the
+// same kind of program to completion - on the same goroutine, through a Go hook, so the interleaving is
+// exact and there is no race.  A must answer what it answers when nothing happens in between.
+func pinnedInterleave(env *Env) {
+	noop := func() string { return "" }
+	for k, pf := range interleaveProgs {
+		progA, progB := fmt.Sprintf(pf, 1), fmt.Sprintf(pf, 2)
+		alone := newTemplate("")
+		Must(alone.Set("other", noop))
+		required := resultText(RunJS(alone, progA))
+		for variant := 0; variant < 2; variant++ {
+			var a, b *otto.Otto
+			who := "B is a sibling copy of A's template"
+			if variant == 0 {
+				t := newTemplate("")
+				Must(t.Set("other", noop))
+				a, b = t.Copy(), t.Copy()
+			} else {
+				who = "A and B are unrelated fresh runtimes"
+				a, b = newTemplate(""), newTemplate("")
+				Must(b.Set("other", noop))
+			}
+			Must(a.Set("other", func() string { _ = RunJS(b, progB); return "" }))
+			obs := resultText(RunJS(a, progA))
+			txt := fmt.Sprintf("pinned interleave #%d (%s): A runs %s with other() = B runs the same program with tag 2; required = A's answer with other() doing nothing", k, who, jsq(progA))
+			env.Add(fmt.Sprintf("CPin 34 %s %s %s", cResult(obs), cResult(required), cResult(required)), txt, "pinned interleave", true)
+			if obs != required {
+				env.Add(fmt.Sprintf("CPin 34 %s %s %s", cResult(obs), cResult(required), cResult(required)),
+					fmt.Sprintf("pinned interleave #%d (%s) OBSERVED %s, alone %s", k, who, clip(obs, 900), clip(required, 900)), "pinned interleave", true)
+			}
+		}
+	}
+}
+
+// pinnedScriptReuse (class 32), sequential, every seed: a compiled Script / parsed Program whose errors
+// carry source positions is run, then UNRELATED runtimes compile and run other programs of the same kind
+// (Run(string), Compile, eval, Function), then the same Script/Program is run again on the same
+// runtime, on a fresh one and on a copy: every run must report what the first run reported.
+func pinnedScriptReuse(env *Env) {
+	r := rand.New(rand.NewSource(20))
+	for k := 0; k < 4; k++ {
+		src := literalCalls(r, 1)
+		a := otto.New()
+		script, err := a.Compile("a.js", src)
+		prog, perr := parser.ParseFile(nil, "a.js", src, 0)
+		if err != nil || perr != nil {
+			panic(fmt.Sprint("pinned script does not compile: ", err, perr))
+		}
+		run := func(vm *otto.Otto, what interface{}) string {
+			return resultText(Guard(func() (otto.Value, error) { return vm.Run(what) }))
+		}
+		required := run(a, script) + " ## " + run(otto.New(), prog)
+		// unrelated compilations in between
+		for i := 0; i < 3; i++ {
+			b := otto.New()
+			other := literalCalls(r, 2+i)
+			_ = RunJS(b, other)
+			_, _ = b.Compile("b.js", other)
+			_ = RunJS(b, "eval("+jsq("try { null(); } catch (e) {} try { new true(); } catch (e) {} try {   false(); } catch (e) {}")+")")
+			_ = RunJS(b, "new Function("+jsq("try {\n\n  null(); } catch (e) {} try { new false; } catch (e) {}")+")()")
+		}
+		cp := a.Copy()
+		obs := []string{run(a, script) + " ## " + run(a, prog), run(otto.New(), script) + " ## " + run(otto.New(), prog), run(cp, script) + " ## " + run(cp, prog)}
+		who := []string{"the same runtime again", "fresh runtimes", "a copy of the first runtime"}
+		for i, o := range obs {
+			txt := fmt.Sprintf("pinned script reuse #%d: Script/Program compiled from %s; first run; three unrelated runtimes compile and run other programs that call/construct literals; then run again on %s; required = the first outcome", k, jsq(src), who[i])
+			env.Add(fmt.Sprintf("CPin 32 %s %s %s", cResult(o), cResult(required), cResult(required)), txt, "pinned script reuse", true)
+			if o != required {
+				env.Add(fmt.Sprintf("CPin 32 %s %s %s", cResult(o), cResult(required), cResult(required)),
+					fmt.Sprintf("pinned script reuse #%d OBSERVED on %s: got %s, first run gave %s", k, who[i], clip(o, 900), clip(required, 900)), "pinned script reuse", true)
+			}
+		}
+	}
+}
+
+// pinnedRegistry (class 33), sequential, every seed: creating a runtime only READS the registry.  A
+// runtime created while an entry is disabled lacks the entry's globals, one created after it was
+// enabled again has them - whatever runtimes were created in between.
+func pinnedRegistry(env *Env) {
+	probe := func() string { return resultText(RunJS(otto.New(), `typeof regMark === 'undefined' ? 'absent' : 'present:' + regMark`)) }
+	var obs []string
+	obs = append(obs, probe())
+	regMark.Disable()
+	obs = append(obs, probe(), probe())
+	regMark.Enable()
+	obs = append(obs, probe())
+	regQuiet.Disable()
+	obs = append(obs, probe())
+	regMark.Disable()
+	regQuiet.Enable()
+	obs = append(obs, probe())
+	regMark.Enable()
+	obs = append(obs, probe(), probe())
+	o := strings.Join(obs, "|")
+	const required = "present:42|absent|absent|present:42|present:42|absent|present:42|present:42"
+	txt := "pinned registry: e = registry.Register(var regMark = 42), q = registry.Register(empty program); New(); e.Disable(); New(); New(); e.Enable(); New(); q.Disable(); New(); e.Disable(); q.Enable(); New(); e.Enable(); New(); New(): each fresh runtime reports typeof regMark; required " + required
+	env.Add(fmt.Sprintf("CPin 33 %s %s %s", cResult(o), cResult(required), cResult(required)), txt, "pinned registry", true)
+	if o != required {
+		env.Add(fmt.Sprintf("CPin 33 %s %s %s", cResult(o), cResult(required), cResult(required)), "pinned registry OBSERVED "+o, "pinned registry", true)
+	}
 }
 
 // the deterministic probes of the setup library, one after the other
